@@ -743,3 +743,12 @@ def rule_no_char_index(ctx, rule, scope, what, minimum=1):
                 if idx is not None and plain_char(idx):
                     ctx.bad(rule, f, "char-index:%s:%s" % (short(f.qual), fmt(n)[:40]), "%s selects `%s` with an index of type char: %s" % (short(f.qual), fmt(n)[:60], what), (f, n.get("ln")))
     ctx.need(rule, "functions scanned for char-typed indices", nf, minimum)
+
+
+def bodies_of(prog, qual):
+    """the analysable bodies of a function template: its instantiations when there are any (their calls are resolved, `raise` is known not to
+    return), the pattern only when nothing instantiates it - whether clang can build a CFG for the pattern depends on how the body is
+    spelled (a range-for over a dependent range has none), and that must not change what is analysed"""
+    fs = [f for f in prog.find(qual) if f.has_cfg]
+    inst = [f for f in fs if not f.is_pattern]
+    return inst if inst else fs
